@@ -69,6 +69,13 @@ template <size_t A> auto op_dplus1(const S<A> &a) { return (Dx<1>{} + 1) * a; }
 template <size_t A> auto op_nested(const S<A> &a, const D &c) {
   return (c * (X<2>{} * Dx<1>{} - Dx<3>{} + c) / c - 2 * X<1>{}) * a;
 }
+// ---- quotients inside larger expressions (the quotient node is negated, divided again, moved into a compound) ----
+template <size_t A> auto op_negdiv(const S<A> &a, const D &c) { return (-(X<1>{} / c)) * a; }
+template <size_t A> auto op_negmul(const S<A> &a, const D &c) { return (-(c * X<1>{})) * a; }
+template <size_t A> auto op_divdiv(const S<A> &a, const D &c) { return ((X<1>{} / c) / c) * a; }
+template <size_t A> auto op_divsum(const S<A> &a, const D &c) { return ((X<1>{} / c) + Dx<1>{}) * a; }
+template <size_t A> auto op_ddivprod(const S<A> &a, const D &c) { return (Dx<1>{} * (X<2>{} / c)) * a; }
+template <size_t A> auto op_intdiv(const S<A> &a) { return ((X<1>{} / 4) - Dx<1>{}) * a; }
 // ---- spline factor -----------------------------------------------------------------------------------
 template <size_t A> auto op_fac(const S<A> &a, const S<1> &v) { return SplineOperator{v} * a; }
 template <size_t A> auto op_fac0(const S<A> &a, const S<0> &v) { return SplineOperator{v} * a; }
@@ -116,6 +123,8 @@ void inst1() {
   (void)op_cx(a, c); (void)op_xc(a, c); (void)op_xdivc(a, c); (void)op_xplusc(a, c); (void)op_cplusx(a, c);
   (void)op_xminusc(a, c); (void)op_cminusx(a, c); (void)op_neg(a); (void)op_int2d(a); (void)op_ddiv2(a);
   (void)op_dplus1(a); (void)op_nested(a, c);
+  (void)op_negdiv(a, c); (void)op_negmul(a, c); (void)op_divdiv(a, c); (void)op_divsum(a, c); (void)op_ddivprod(a, c);
+  (void)op_intdiv(a);
   (void)op_fac(a, v); (void)op_fac0(a, v0); (void)op_facd(a, v); (void)op_dfac(a, v); (void)op_facsum(a, v, c);
   (void)lf_id(a); (void)lf_x1(a); (void)lf_x1d1(a); (void)lf_d1(a); (void)lf_fac(a, v);
 }
